@@ -163,6 +163,34 @@ def go_build(cmd="seqdiff"):
 class BuildError(Exception):
     pass
 
+def tool_build(name):
+    """build tools/extract/<name> (stdlib-only Go) and return the binary path"""
+    bdir = os.path.join(BUILD, "tools")
+    os.makedirs(bdir, exist_ok=True)
+    binp = os.path.join(bdir, name)
+    with Lock("tools"):
+        rc, out = sh(["go", "build", "-o", binp, "./extract/" + name], cwd=os.path.join(VERIF, "tools"), env=GOENV, timeout=600)
+    if rc != 0:
+        raise BuildError("go build of tool %s failed:\n%s" % (name, out[-2000:]))
+    return binp
+
+GENERATED = {"mergeprogs": "MergeProgs.lean", "lockfacts": "LockFacts.lean", "eventtables": "EventTables.lean"}
+
+def regenerate(name):
+    """re-run an extractor on REPO's working tree and (re)write lean/Generated/<file> if it changed.
+    returns (ok, message)"""
+    binp = tool_build(name)
+    rc, out = sh([binp, REPO], env=GOENV, timeout=600)
+    if rc != 0 or "namespace CM.Generated" not in out:
+        return False, "extractor %s failed: %s" % (name, out[-1500:])
+    path = os.path.join(LEAN, "Generated", GENERATED[name])
+    with Lock("lake"):
+        old = open(path).read() if os.path.exists(path) else None
+        if old != out:
+            with open(path, "w") as f:
+                f.write(out)
+    return True, ("regenerated" if old != out else "unchanged")
+
 # ------------------------------------------------------------------ sequential differential (K1 + spec-vs-real)
 
 def read_lines(p):
